@@ -18,7 +18,7 @@ def run_one(m):
         f = os.path.join(d, "mut.go"); open(f, "w").write(new)
         ov = os.path.join(d, "ov.json"); json.dump({src: f}, open(ov, "w"))
         cmd = [os.path.join(ROOT, "bin/govc"), "check", "-prop", m["prop"], "-contracts", os.environ.get("GOVC_CONTRACTS", "/verif/contracts"), "-overlay", ov,
-               "-workdir", os.path.join(d, "w"), "-replays", os.path.join(d, "r"), "-known", "/nonexistent"]
+               "-workdir", os.path.join(d, "w"), "-replays", os.path.join(d, "r")]
         if m.get("func"): cmd += ["-func", m["func"]]
         p = subprocess.run(cmd, capture_output=True, text=True)
         out = p.stdout + p.stderr
